@@ -672,6 +672,7 @@ def _blen(ex, ins):
 
 
 pure('strings.ReplaceAll')
+pure('reflect.DeepEqual', doc='total pure function of its two arguments (never panics)')
 
 @model('strconv.ParseInt', doc='total function of (string, base, bit size): a value and an error (two uninterpreted functions); a nil error means the value is within the bit size')
 def _parseint(ex, ins):
